@@ -130,12 +130,17 @@ def configured(ck):
 
     fails, n = [], 0
     u = np.array([0.03, 0.25, 0.5, 0.75, 0.97])
-    for idx in (0, 1, 2, 3, 4, 0.0, 1.0, 2.0, 3.0, 4.0, 2.5, "3", "2.5"):
+    # (numpy scalars -- what a parameter scan over np.linspace / np.arange assigns to the field of an existing configuration)
+    for idx in (0, 1, 2, 3, 4, 0.0, 1.0, 2.0, 3.0, 4.0, 2.5, "3", "2.5", np.float64(1.0), np.float64(2.0), np.float32(1.0), np.int64(1), np.linspace(0.5, 2, 7)[2], np.arange(0, 3)[1]):
         for lo, hi in ((6.0, 12.0), (7.5, 9.25)):
             n += 1
             try:
                 cfg = NssConfig()
-                cfg.simulation.spectrum = Simulation.PowerSpectrum(index=idx, lower_bound=lo, upper_bound=hi)
+                if isinstance(idx, np.generic):
+                    cfg.simulation.spectrum = Simulation.PowerSpectrum(index=2.0, lower_bound=lo, upper_bound=hi)
+                    cfg.simulation.spectrum.index = idx
+                else:
+                    cfg.simulation.spectrum = Simulation.PowerSpectrum(index=idx, lower_bound=lo, upper_bound=hi)
                 with harness.patched_rng([u.copy()]), np.errstate(all="ignore"):
                     L, norm, wsum = Spectra(cfg)(len(u))
             except Exception as ex:
@@ -236,6 +241,6 @@ def run(ck):
         break
     ck.bounded_run("fragile-guard replay u in {0,1}", lambda: fragile(ck, fc), design="u in {0,1} x 8 indices x 5 bound pairs, exact float64 comparison")
     ck.bounded_run("real configuration classes: index as float / int / text, mono energies", lambda: configured(ck),
-                   design="13 spellings of the index x 2 bound pairs x 5 fixed uniform numbers (CDF identity to 1e-9, bounds, normalisation); 7 mono energies x {1, 3} events, exact float64 equality")
+                   design="19 spellings of the index (Python and numpy scalars) x 2 bound pairs x 5 fixed uniform numbers (CDF identity to 1e-9, bounds, normalisation); 7 mono energies x {1, 3} events, exact float64 equality")
     # vacuity: a wrong claim must be refuted
     ck.planted("%s/planted" % qn, fc.hyps, sp.Le(sp.Symbol("u", real=True), sym.rat(0.5)))
